@@ -251,11 +251,12 @@ def bounded_size(e):
 
 
 # ---------------------------------------------------------------------------------------------------------------
-def may_panic(an, rep, side, rule_id, min_roots=90, min_reach=100):
+def may_panic(an, rep, side, rule_id, min_roots=90, min_reach=100, crate=None, roots=None):
     """N1 (side='decode') / N2 (side='encode')."""
-    core = an.core()
+    core = crate or an.core()
     cg = callgraph.CallGraph(core)
-    roots = callgraph.decode_roots(core) if side == "decode" else callgraph.encode_roots(core)
+    if roots is None:
+        roots = callgraph.decode_roots(core) if side == "decode" else callgraph.encode_roots(core)
     paths = cg.reach(roots)
     R = rep.rule(rule_id, "every may-panic site (MIR assert, panic call, callee documented `# Panics`) reachable from "
                           "Roots(%s) is discharged: constant/interval, dominating guard, paired typestate, or a frozen "
@@ -347,10 +348,10 @@ def is_wire_value(e):
     return False
 
 
-def _decode_bodies(an):
-    core = an.core()
+def _decode_bodies(an, crate=None, roots=None):
+    core = crate or an.core()
     cg = callgraph.CallGraph(core)
-    roots = callgraph.decode_roots(core)
+    roots = roots if roots is not None else callgraph.decode_roots(core)
     paths = cg.reach(roots)
     return core, [(core.bodies[d], p) for d, p in sorted(paths.items())]
 
@@ -363,12 +364,12 @@ def _encode_bodies(an):
     return core, [(core.bodies[d], p) for d, p in sorted(paths.items())]
 
 
-def sign_loss_casts(an, rep):
+def sign_loss_casts(an, rep, crate=None, roots=None, floor=True):
     """N3: no signed -> unsigned-size cast of a value in decode-reachable code unless non-negativity is established."""
     R = rep.rule("N3", "no IntToInt cast from a signed integer to usize/u64/u32 in decode-reachable code unless the "
                        "operand's interval is non-negative or a dominating guard establishes it; checked conversions "
                        "(try_from/try_into) are the accepted idiom")
-    core, bodies = _decode_bodies(an)
+    core, bodies = _decode_bodies(an, crate, roots)
     n = 0
     for b, path in bodies:
         ex = mir.Expr(b)
@@ -420,12 +421,12 @@ SIZE_ARG = {"from_elem": 1, "Vec<T, A>::reserve": 1, "Vec<T, A>::reserve_exact":
             "BytesMut::reserve": 1, "[T]::repeat": 1, "str::repeat": 1, "Vec<T, A>::resize_with": 1}
 
 
-def alloc_taint(an, rep):
+def alloc_taint(an, rep, crate=None, roots=None, floor=True):
     """N4: a size read from the wire reaches an allocation-size position only through a sanitiser."""
     R = rep.rule("N4", "every allocation-size argument (with_capacity, reserve, resize, vec![_; n], repeat) in "
                        "decode-reachable code is bounded: constant, <=16-bit origin, min() with a constant, a const "
                        "generic, or not derived from the input")
-    core, bodies = _decode_bodies(an)
+    core, bodies = _decode_bodies(an, crate, roots)
     n = 0
     for b, path in bodies:
         ex = None
@@ -445,7 +446,8 @@ def alloc_taint(an, rep):
             else:
                 R.fail(b.key, "size argument of " + info["key"], "allocation sized by %s, which is not bounded by a "
                        "sanitiser" % show(arg), mir.loc(b, bb), {"call_path_from_root": path})
-    R.floor("allocation-size sinks in decode-reachable code", n, 5)
+    if floor:
+        R.floor("allocation-size sinks in decode-reachable code", n, 5)
     return R
 
 
